@@ -20,6 +20,8 @@ ASSUMPTIONS = ["gzip / base64 / json layers are library code", "round trip over 
 TRUSTED = []
 
 MUTANTS = [
+    {"name": "repl-peers-read-with-take", "file": "src/replication/replicator.rs", "old": "        for _ in 0..peer_num {\n            let node_address = it.next().ok_or(CmdParseError::InvalidArgs)?;\n            let proxy_address = it.next().ok_or(CmdParseError::InvalidArgs)?;\n            peers.push(ReplPeer {\n                node_address,\n                proxy_address,\n            })\n        }", "new": "        let toks: Vec<String> = it.by_ref().take(peer_num * 2).collect();\n        for pair in toks.chunks(2) {\n            if let [node_address, proxy_address] = pair {\n                peers.push(ReplPeer {\n                    node_address: node_address.clone(),\n                    proxy_address: proxy_address.clone(),\n                })\n            }\n        }", "expect": "C17.D5:decoder-reads-every-token"},
+    {"name": "masters-without-replicas-not-encoded", "file": "src/replication/replicator.rs", "old": "    for master in masters.iter() {\n        args.push(\"master\".to_string());", "new": "    for master in masters.iter() {\n        if master.replicas.is_empty() {\n            continue;\n        }\n        args.push(\"master\".to_string());", "expect": "C17.D5:encoder-emits-every-element"},
     {"name": "migration-meta-read-order", "file": "src/common/cluster.rs", "old": "            src_proxy_address: it.next()?,\n            src_node_address: it.next()?,\n            dst_proxy_address: it.next()?,", "new": "            src_proxy_address: it.next()?,\n            dst_proxy_address: it.next()?,\n            src_node_address: it.next()?,", "expect": "C17.D1:MigrationMeta"},
     {"name": "importing-tag-written-as-migrating", "file": "src/common/cluster.rs", "old": "                strs.push(IMPORTING_TAG.to_string());", "new": "                strs.push(MIGRATING_TAG.to_string());", "expect": "C17.D2:tag"},
     {"name": "infomgr-join-comma", "file": "src/proxy/executor.rs", "old": ".map(|task| task.into_strings().join(\" \"))", "new": ".map(|task| task.into_strings().join(\",\"))", "expect": "C17.D2:infomgr"},
@@ -75,6 +77,9 @@ def run(ctx):
     _constants(ctx)
     _compressed(ctx)
     _commit_tag(ctx)
+    ctx.rule("C17.D5", "decoders read count-prefixed and token lists element by element (next / peek) and fail on exhaustion: no truncating adaptor (take, zip, tuples, chunks, step_by, take_while ...) over the token stream; encoders emit every element of every list (no way round an encoder loop that skips the pushes)")
+    _decoder_adaptors(ctx)
+    _encoder_loops(ctx)
 
 
 def _migration_meta(ctx):
@@ -368,3 +373,70 @@ def _commit_tag(ctx):
         rej = any(x in res.exec_blocks for x in inval)
         want = (v["name"] == "None")
         ctx.check(rej == want, "C17.D4", "commit-accepts:%s" % v["name"], site(b), ok="rejected" if rej else "accepted", bad="a descriptor tagged %s is %s by commit_migration" % (v["name"], "rejected (InvalidMigrationTask)" if rej else "accepted"))
+
+
+DECODERS = ("replication::replicator::parse_repl_meta", "common::proto::ProxyClusterMeta::parse", "common::proto::ProxyClusterMeta::from_resp", "common::proto::NodeMap::parse",
+            "common::proto::NodeMap::parse_node", "common::proto::NodeMap::parse_tagged_slot_range", "common::proto::ClusterConfigData::parse", "common::cluster::SlotRange::from_strings",
+            "common::cluster::RangeList::parse", "common::cluster::RangeList::parse_slot_range", "common::cluster::MigrationMeta::from_strings", "common::cluster::MigrationTaskMeta::from_strings",
+            "migration::task::SwitchArg::from_strings", "migration::task::parse_switch_command", "coordinator::migration::MigrationStateRespChecker::parse_migration_task_meta")
+BANNED_ADAPTORS = ("take", "take_while", "map_while", "zip", "tuples", "tuple_windows", "chunks", "chunks_exact", "step_by", "nth", "last", "fuse", "scan", "dedup", "unique", "skip_while", "tuple_combinations", "next_tuple", "collect_tuple")
+# leading command words are skipped on purpose: one reason per site
+VETTED_SKIP = {"common::proto::ProxyClusterMeta::from_resp": "skips the command words `UMCTL SETCLUSTER`", "replication::replicator::parse_repl_meta": "skips the command words `UMCTL SETREPL`"}
+
+
+def _decoder_adaptors(ctx):
+    F = ctx.F
+    n = 0
+    for name in DECODERS:
+        b = F.bodies.get(name)
+        if b is None:
+            ctx.lost("C17.D5", "decoder:%s" % name.rsplit("::", 2)[-2] + "::" + name.rsplit("::", 1)[-1], "decoder %s not found" % name)
+            continue
+        n += 1
+        fam = F.family(b)
+        ctx.analysed(*fam)
+        bad = []
+        skips = 0
+        for x in fam:
+            for bb, t in x.calls():
+                d = callee_decl(t) or callee_of(t) or ""
+                last = d.rsplit("::", 1)[-1]
+                if not (d.startswith(("std::iter::Iterator::", "core::iter::", "itertools::", "std::iter::Peekable")) or "Itertools" in d):
+                    continue
+                if last in BANNED_ADAPTORS:
+                    bad.append((last, x, bb))
+                if last == "skip":
+                    skips += 1
+                    if name not in VETTED_SKIP or skips > 1:
+                        bad.append((last, x, bb))
+        ctx.check(not bad, "C17.D5", "decoder-reads-every-token:%s" % "::".join(name.rsplit("::", 2)[-2:]), site(bad[0][1], bad[0][2]) if bad else site(b), ok="tokens are read with next() / peek() only",
+                  bad="%s uses the adaptor(s) %s on its token stream: they stop quietly at the end of the input, so a truncated message parses into different valid metadata instead of being rejected" % (name, sorted({x[0] for x in bad})))
+    ctx.floor("C17.D5", "decoders examined", n, 12)
+
+
+ENCODERS = ("replication::replicator::encode_repl_meta", "common::proto::ProxyClusterMeta::to_args", "common::proto::NodeMap::to_args", "common::proto::ClusterConfigData::to_args",
+            "common::cluster::SlotRange::into_strings", "common::cluster::RangeList::to_strings", "common::cluster::MigrationMeta::into_strings", "common::cluster::MigrationTaskMeta::into_strings",
+            "migration::task::SwitchArg::into_strings", "coordinator::sync::generate_repl_meta_cmd_args")
+
+
+def _encoder_loops(ctx):
+    from .C02 import loop_can_skip
+    F = ctx.F
+    n = 0
+    nl = 0
+    for name in ENCODERS:
+        b = F.bodies.get(name)
+        if b is None:
+            continue
+        n += 1
+        ctx.analysed(b)
+        sinks = [bb for bb, t in b.calls() if (callee_of(t) or "").rsplit("::", 1)[-1] in ("push", "extend", "append", "push_str", "insert", "extend_from_slice")]
+        loops = {h for _, h in cfg.natural_loops(b)}
+        if not loops:
+            continue
+        nl += len(loops)
+        sk = loop_can_skip(b, sinks)
+        ctx.check(not sk, "C17.D5", "encoder-emits-every-element:%s" % "::".join(name.rsplit("::", 2)[-2:]), site(b, sk[0][0]) if sk else site(b), ok="no iteration of an encoder loop can leave without emitting",
+                  bad="%s can go round a loop (head bb%s) without emitting anything for that element: the element is missing from the message and the decoded value differs" % (name, [h for h, _ in sk]))
+    ctx.floor("C17.D5", "encoders examined", n, 6)
+    ctx.floor("C17.D5", "encoder loops examined", nl, 3)
